@@ -36,7 +36,7 @@ let mr n =
 
 let limit_verified = Z.of_int 100_000
 let kernel_calls = ref 0 and kernel_verified = ref 0
-let kernel a b =
+let erat a b =
   incr kernel_calls;
   if Z.leq b limit_verified then (incr kernel_verified; primes_between a b)
   else begin
@@ -48,6 +48,9 @@ let kernel a b =
     done;
     !acc
   end
+
+(* the iterator's kernel is the PrimeGenerator model (cached-prime tables from the source + sieve oracle) *)
+let kernel a b = pg_primes erat a b
 
 let rec nat_of_int n = if n <= 0 then O else S (nat_of_int (n - 1))
 let rec int_of_nat = function O -> 0 | S n -> 1 + int_of_nat n
@@ -76,6 +79,7 @@ let run_iter args lines =
       | ["M"] -> Some MoveRoundTrip
       | ["F"] -> Some MovedFrom
       | ["NEW"; s; h] -> it := fresh_iter (z s) (z h); None
+      | ["SS"; _] -> None
       | _ -> failwith ("bad op: " ^ line) in
     ignore first;
     match op with
